@@ -256,6 +256,120 @@ class SymBackend:
         flat = [core.SC.lift(x) for x in flat]
         return self.EXP.require_zero(flat, label, kind, detail)
 
+    def _strip_common(self, arr):
+        """arr (object array of SC) = lam * A with lam a monomial in definitional (inverse / sqrt) variables that
+        occurs in every monomial of every entry; returns (lam as Poly, A) - lam may be 1"""
+        from .core import ONE, Poly, SC
+
+        ctx = core.CTX
+        common = None
+        for x in arr.flatten():
+            for p in (x.re, x.im):
+                for m in p.t:
+                    d = {v: e for v, e in m if ctx.kind[v] in ("inv", "sqrt")}
+                    if common is None:
+                        common = d
+                    else:
+                        common = {v: min(e, d[v]) for v, e in common.items() if v in d}
+                    if not common:
+                        break
+        if not common:
+            return ONE, arr
+        lam = Poly({tuple(sorted(common.items())): 1})
+
+        def div(p):
+            out = {}
+            for m, c in p.t.items():
+                dd = dict(m)
+                for v, e in common.items():
+                    if dd[v] == e:
+                        del dd[v]
+                    else:
+                        dd[v] -= e
+                out[tuple(sorted(dd.items()))] = c
+            return Poly(out)
+
+        A = np.empty(arr.shape, dtype=object)
+        for idx in np.ndindex(arr.shape):
+            A[idx] = SC(div(arr[idx].re), div(arr[idx].im))
+        return lam, A
+
+    def require_equal_normalised(self, rho1, E, label, kind="state-map"):
+        """claim: rho1 == E / tr(E)  (E unnormalised reference, rho1 the implementation's density matrix).
+        Fast path: rho1 = lam*A with a common scalar factor; A == E entrywise and lam*tr(E) == 1.  Only if that
+        does not close syntactically the solver is asked about the (small) residues A - E, a model is checked
+        numerically against the real claim, and as a last resort the cross-multiplied identity is built."""
+        from . import ref
+
+        lam, A = self._strip_common(rho1)
+        trE = ref.trace(E)
+        res = [a - e for a, e in zip(A.flatten(), E.flatten())]
+        if all(r.is_zero() for r in res):
+            ok1 = self.EXP.require_zero(res, label, kind)
+            ok2 = self.EXP.require_zero([core.SC(lam) * trE - core.SC(core.ONE)], label + " [normalisation factor]", kind)
+            return ok1 and ok2
+
+        def claim_violated(env):
+            tr = trE.eval(env)
+            if abs(tr) < 1e-12:
+                return False
+            for a, e in zip(rho1.flatten(), E.flatten()):
+                if abs(a.eval(env) - e.eval(env) / tr) > 1e-7:
+                    return True
+            return False
+
+        return self.EXP.require_zero_guided(res, claim_violated,
+                                            lambda: [x * trE - e for x, e in zip(rho1.flatten(), E.flatten())],
+                                            label, kind)
+
+    def require_parallel(self, v, w, label, kind="state-map", same_norm=False):
+        """claim: vector v equals w up to a complex scalar (global phase / normalisation): v_i w_j == v_j w_i.
+        Fast path as in require_equal_normalised: v = lam*a with a == w."""
+        lam, a = self._strip_common(v)
+        vf, wf, af = list(v.flatten()), list(w.flatten()), list(a.flatten())
+        res = [x - y for x, y in zip(af, wf)]
+        if all(r.is_zero() for r in res):
+            ok = self.EXP.require_zero(res, label, kind)
+            if same_norm:
+                n1 = core.ZERO
+                for x in vf:
+                    n1 = n1 + x.abs2()
+                n2 = core.ZERO
+                for x in wf:
+                    n2 = n2 + x.abs2()
+                ok = self.EXP.require_zero([core.SC(n1 - n2)], label + " [norm]", kind) and ok
+            return ok
+
+        def cross():
+            out = []
+            n = len(vf)
+            for i in range(n):
+                for j in range(i + 1, n):
+                    out.append(vf[i] * wf[j] - vf[j] * wf[i])
+            if same_norm:
+                n1 = core.ZERO
+                for x in vf:
+                    n1 = n1 + x.abs2()
+                n2 = core.ZERO
+                for x in wf:
+                    n2 = n2 + x.abs2()
+                out.append(core.SC(n1 - n2))
+            return out
+
+        def claim_violated(env):
+            ve = [x.eval(env) for x in vf]
+            we = [x.eval(env) for x in wf]
+            n = len(ve)
+            for i in range(n):
+                for j in range(i + 1, n):
+                    if abs(ve[i] * we[j] - ve[j] * we[i]) > 1e-7:
+                        return True
+            if same_norm and abs(sum(abs(x) ** 2 for x in ve) - sum(abs(x) ** 2 for x in we)) > 1e-7:
+                return True
+            return False
+
+        return self.EXP.require_zero_guided(res, claim_violated, cross, label, kind)
+
     def require(self, cond, label, kind="assert", detail=None):
         """cond: python bool / SymBool / shim 0-d array"""
         f = core.lift_bool(cond)
@@ -377,6 +491,22 @@ class RealBackend:
             self.failures.append({"label": label, "kind": kind, "max_abs_diff": m})
             return False
         return True
+
+    def require_equal_normalised(self, rho1, E, label, kind="state-map"):
+        E = np.asarray(E, dtype=complex)
+        tr = np.trace(E)
+        if abs(tr) < 1e-14:
+            return self.require(False, label + " [reference has zero trace]", kind)
+        return self.require_zero([np.asarray(rho1, dtype=complex) - E / tr], label, kind)
+
+    def require_parallel(self, v, w, label, kind="state-map", same_norm=False):
+        v = np.asarray(v, dtype=complex).reshape(-1)
+        w = np.asarray(w, dtype=complex).reshape(-1)
+        cross = np.outer(v, w) - np.outer(w, v)
+        diffs = [cross]
+        if same_norm:
+            diffs.append(np.array([np.vdot(v, v) - np.vdot(w, w)]))
+        return self.require_zero(diffs, label, kind)
 
     def require(self, cond, label, kind="assert", detail=None):
         self.checked += 1
